@@ -150,6 +150,17 @@ func (r *Run) Assume(s string) { r.mu.Lock(); r.assumptions = append(r.assumptio
 // Set stores an extra coverage key.
 func (r *Run) Set(key string, v interface{}) { r.mu.Lock(); r.extra[key] = v; r.mu.Unlock() }
 
+// DropExtra removes extra keys with a prefix (transport-only data that is not coverage).
+func (r *Run) DropExtra(prefix string) {
+	r.mu.Lock()
+	for k := range r.extra {
+		if strings.HasPrefix(k, prefix) {
+			delete(r.extra, k)
+		}
+	}
+	r.mu.Unlock()
+}
+
 // Exhaustive marks that a finite space was enumerated completely.
 func (r *Run) Exhaustive(b bool) { r.mu.Lock(); r.exhaustive = b; r.mu.Unlock() }
 
